@@ -48,6 +48,12 @@ CHECKS["C13"] = ("exploration", "exhaustive enumeration of the 864-program table
 CHECKS["C14"] = ("exploration", "differential program PBT vs genuinely nested async-with statements (complete for <= 2 entries) plus run-once histories; hang watchdog",
   "ExitStack programs (7 entry kinds x 5-6 behaviours x block outcome; every program with <= 2 entries enumerated, 3-4 entries sampled) are compared with the same entries written as nested with statements: order of exits, the exception object each receives, callback arguments, final outcome. Generated register/aclose/pop_all/leave/unwind-again histories check that every registered exit runs exactly once overall. Non-termination is detected by a per-case watchdog with isolated re-run.",
   "__context__ chains are not compared; exits never re-raise an older exception of the chain", "4/C14")
+CHECKS["C11"] = ("exploration", "schedule-driven PBT (generated task programs x schedules, one cancellation) plus exhaustive schedules for 2 tasks x 2 calls; existential LRU-model oracle",
+  "Tasks issuing calls / cache_clear / cache_discard over 1-3 keys against a suspending wrapped function run under generated schedules with an optional failing invocation and one cancellation; currsize <= maxsize after every scheduler step, values belong to their key, hits+misses == calls and misses == invocations since the last clear, and a sequential probe history must be explainable by the C10 LRU model from some subset of the successfully completed keys. All schedules of 2 tasks x 2 calls are enumerated.",
+  "cooperative tasks; wrapped function tolerates overlap; probe oracle is the sequential model of C10", "4/C11")
+CHECKS["C12"] = ("exploration", "model-based sequential histories plus schedule-driven PBT (exhaustive schedules for 2-3 tasks) with lock doubles, deletion, failure and cancellation",
+  "Sequential await / take-placeholder / del / failing-getter histories on two instances against an absent|value model (getter runs iff absent, identity-stable value); concurrent awaiters under generated and enumerated schedules: every awaiter gets a returned object; with a lock exactly one run returns, runs never overlap, all share the value; locks free and balanced after cancelling the holder; later accesses served from the cache.",
+  "with a deleting task only recomputation is asserted; without a lock the documented multiple runs are accepted", "4/C12")
 REASONS = {}
 props = [json.loads(l)["id"] for l in open(os.path.join(HERE, "properties.jsonl"))]
 checks = []
